@@ -9,6 +9,7 @@ import (
 	"testing"
 
 	"github.com/moorara/algo/lexer"
+	algoparser "github.com/moorara/algo/parser"
 	"github.com/moorara/algo/parser/lr"
 	"pgregory.net/rapid"
 
@@ -31,7 +32,20 @@ type input struct {
 	FailAt int    `json:"fail_at"`
 }
 
-var errInjected = errors.New("injected callback failure")
+// injected errors: a plain one, one that wraps a parse error of its own below its top level (a callback may itself have
+// parsed something), and a joined one.  Which one a callback returns is a function of the failing step.
+var injectedErrors = []error{
+	errors.New("injected callback failure"),
+	fmt.Errorf("injected callback failure: %w", &algoparser.ParseError{Description: "inner parse error of the callback", Pos: lexer.Position{Filename: "inner.ebnf", Offset: 7, Line: 3, Column: 4}}),
+	errors.Join(errors.New("injected callback failure"), errors.New("and a second one")),
+}
+
+func injected(failAt int) error {
+	if failAt < 0 {
+		failAt = 0
+	}
+	return injectedErrors[failAt%len(injectedErrors)]
+}
 
 type expectation struct {
 	toks   []ref.Tok
@@ -84,7 +98,7 @@ func checkParse(text string, failAt int) (reductions int, err error) {
 		step++
 		if step-1 == failAt {
 			failed = true
-			return errInjected
+			return injected(failAt)
 		}
 		return nil
 	}
@@ -129,7 +143,7 @@ func checkParse(text string, failAt int) (reductions int, err error) {
 	if rerr == nil {
 		return reductions, fmt.Errorf("callback %d (%s) returned an error, but Parse reports success", failAt, describeEvent(e, e.events[failAt]))
 	}
-	if !errors.Is(rerr, errInjected) && !strings.Contains(rerr.Error(), errInjected.Error()) {
+	if !errors.Is(rerr, injected(failAt)) && !strings.Contains(rerr.Error(), "injected callback failure") {
 		return reductions, fmt.Errorf("callback %d returned an error, but Parse returns a different one: %v", failAt, rerr)
 	}
 	if step != failAt+1 {
@@ -246,7 +260,7 @@ func checkEvaluate(text string, failAt int) error {
 			step++
 			if step-1 == failAt {
 				failed = true
-				return nil, errInjected
+				return nil, injected(failAt)
 			}
 			return &tag{c.id}, nil
 		})
@@ -273,7 +287,7 @@ func checkEvaluate(text string, failAt int) error {
 	if rerr == nil {
 		return fmt.Errorf("evaluation call %d (production %d) returned an error, but ParseAndEvaluate reports success", failAt, calls[failAt].node.Prod)
 	}
-	if !errors.Is(rerr, errInjected) && !strings.Contains(rerr.Error(), errInjected.Error()) {
+	if !errors.Is(rerr, injected(failAt)) && !strings.Contains(rerr.Error(), "injected callback failure") {
 		return fmt.Errorf("evaluation call %d returned an error, but ParseAndEvaluate returns a different one: %v", failAt, rerr)
 	}
 	if step != failAt+1 {
